@@ -17,7 +17,7 @@ LEVEL = 'exploration'
 ALPHABET = ['a', 'b', '%', '_', '.', '*', '\\', '[', '(', '^', '$', '+', '?', '|']
 SPECIAL = set(ALPHABET) - {'a', 'b'}
 QUANT_ALPHABET = ['a', '{', '}', '1', '2', ',', '%', '_']
-NEWLINE_ALPHABET = ['a', '%', '_', '\n', '\r', '\u2028', '\x85']
+NEWLINE_ALPHABET = ['a', '%', '_', '\n', '\r', '\u2028', '\x85', '\x00', '\x01']      # line breaks, and the two lowest control characters (ordinary characters like any other)
 # patterns and texts that are also names the host language gives a meaning to (members of Object.prototype / Map / dict, keywords, constants):
 # in a pattern each `_` is a wildcard, every other character stands for itself
 HOST_WORDS = ['constructor', 'toString', 'valueOf', 'hasOwnProperty', 'isPrototypeOf', 'toLocaleString', 'propertyIsEnumerable', '__proto__', '__defineGetter__',
